@@ -115,21 +115,28 @@
 (*   value of e whether or not e is pre-computed.                          *)
 (*                                                                         *)
 (* L - concurrency (NgdpMemoryPool, SizedMemoryPool shared by threads):    *)
-(*   every history of allocate / deallocate / stats calls by several       *)
-(*   threads is linearizable w.r.t. P3, where an operation that overlaps   *)
-(*   another thread's operation may miss although a buffer is idle and may *)
-(*   drop a returned buffer (the pool is a cache of buffers), but every    *)
-(*   allocation is counted; at quiescence the books satisfy P3's           *)
-(*   conservation and pool_size matches what the pool then hands out.      *)
+(*   every history of allocate / deallocate / size_class_stats calls by    *)
+(*   several threads is linearizable w.r.t. P3, the pool being two         *)
+(*   objects - the buffer queues with pool_size, and the statistics        *)
+(*   counters - on which an allocation acts one after the other within its *)
+(*   interval; an operation that overlaps another thread's operation may   *)
+(*   miss although a buffer is idle and may drop a returned buffer (the    *)
+(*   pool is a cache of buffers), but every allocation is counted.  At     *)
+(*   quiescence: allocations = number of allocate calls, reuses + misses = *)
+(*   allocations, reuses <= buffers returned (conservation, per size       *)
+(*   class), max_pool_size >= pool_size, and pool_size is exactly what the *)
+(*   pool then hands out (that many reuses, then a miss); held buffers     *)
+(*   keep their holder's bytes (P2).                                       *)
 (*                                                                         *)
-(* B - BackgroundMemoryManager (virtual time): is_running() is true from   *)
-(*   a successful start_optimization() to shutdown() and false otherwise;  *)
-(*   start / shutdown are idempotent; tasks_executed never exceeds the     *)
-(*   number of tasks handed to the worker; shutdown() does not wait for    *)
-(*   the reschedule delay of a periodic task; a task submitted while no    *)
-(*   other submitted task is pending is executed without waiting for the   *)
-(*   reschedule delays of the start-up tasks; a MonitorUsage{interval}     *)
-(*   task samples its content type periodically.                           *)
+(* B - BackgroundMemoryManager (virtual time, every sequence of start /    *)
+(*   shutdown / submit_task / trigger_* calls and clock advances):         *)
+(*   is_running() is true from a successful start_optimization() to        *)
+(*   shutdown() and false otherwise; start and shutdown are idempotent (a  *)
+(*   start after a shutdown may be refused); tasks_executed never          *)
+(*   decreases; whatever was handed to a running worker has been executed  *)
+(*   once the caller has yielded to it; shutdown() does not wait for the   *)
+(*   reschedule delay of a periodic task; a MonitorUsage{interval} task    *)
+(*   samples its content type once per interval (one period of slack).     *)
 (***************************************************************************)
 EXTENDS Cache, Integers
 
